@@ -6,6 +6,7 @@ package main
 // truncated / bit-flipped encodings, through proto.Unmarshal + ProtoDecode of every view, under recover().
 
 import (
+	"bytes"
 	"errors"
 	"fmt"
 	"math/big"
@@ -77,11 +78,13 @@ func runMem(seed uint64, n int, outDir string, replay string) {
 					o.Pad("panic %v", p)
 				}
 			}()
-			switch rc.Intn(10) {
+			switch rc.Intn(12) {
 			case 0, 1, 2:
 				memModelled(o, rc, ans)
 			case 3, 4, 5, 6:
 				memAnyOp(o, rc, ans)
+			case 10, 11:
+				memCopySrc(o, rc, ans)
 			default:
 				fuzzDecoders(o, rc, ans)
 			}
@@ -267,6 +270,83 @@ func memAnyOp(o *h.Out, rc *h.Rng, ans func(string)) {
 		o.Violate("c15-memory-not-paid:"+name, fmt.Sprintf("%s grew memory to %d words (cost %d) while the frame used %d gas (err=%v, size=%s off=%s)", name, words, memCostGo(words), used, err, size, off))
 	}
 	_ = errors.Is
+}
+
+// memCopySrc: the data-reading opcodes (CALLDATALOAD, CALLDATACOPY, CODECOPY, EXTCODECOPY) with any source offset -
+// inside the data, straddling its end, at the top of the uint64 range, beyond it.  T3: the bytes delivered are the
+// window [off, off+size) of the source, zero-padded where it runs past the end (a bound that wraps around must not
+// read other bytes, and must not abort the node).
+func memCopySrc(o *h.Out, rc *h.Rng, ans func(string)) {
+	tr := &memTracer{}
+	env := memEnv(tr)
+	srcLen := rc.Intn(80)
+	src := make([]byte, srcLen)
+	for i := range src {
+		src[i] = byte(1 + rc.Intn(255))
+	}
+	var off *big.Int
+	switch rc.Intn(6) {
+	case 0:
+		off = big.NewInt(int64(rc.Intn(srcLen + 1)))
+	case 1:
+		off = big.NewInt(int64(srcLen + rc.Intn(40)))
+	case 2:
+		off = new(big.Int).Sub(new(big.Int).SetUint64(^uint64(0)), big.NewInt(int64(rc.Intn(70))))
+	case 3:
+		off = new(big.Int).Add(new(big.Int).SetUint64(^uint64(0)), big.NewInt(int64(1+rc.Intn(3))))
+	case 4:
+		off = new(big.Int).Lsh(big.NewInt(1), uint(8+rc.Intn(248)))
+	default:
+		off = memSize(rc)
+	}
+	size := uint64(rc.Intn(70))
+	ops := []string{"CALLDATALOAD", "CALLDATACOPY", "CODECOPY", "EXTCODECOPY"}
+	name := ops[rc.Intn(len(ops))]
+	a := &asm{}
+	var calldata, source []byte
+	ext := evContract(2)
+	switch name {
+	case "CALLDATALOAD":
+		size = 32
+		calldata, source = src, src
+		a.push(off).op(vm.CALLDATALOAD).pushN(0).op(vm.MSTORE)
+	case "CALLDATACOPY":
+		calldata, source = src, src
+		a.pushN(size).push(off).pushN(0).op(vm.CALLDATACOPY)
+	case "EXTCODECOPY":
+		env.sdb.CreateAccount(ext)
+		env.sdb.SetCode(ext, src)
+		source = src
+		a.pushN(size).push(off).pushN(0).pushB(ext.Bytes()).op(vm.EXTCODECOPY)
+	}
+	if name == "CODECOPY" {
+		a.pushN(size).push(off).pushN(0).op(vm.CODECOPY)
+	}
+	a.pushN(size).pushN(0).op(vm.RETURN)
+	if name == "CODECOPY" {
+		source = a.b
+	}
+	c1 := evContract(1)
+	env.sdb.CreateAccount(c1)
+	env.sdb.SetCode(c1, a.b)
+	o.Op("note")
+	ans("ok")
+	o.Count("memsrc:" + name)
+	ret, _, _, err := env.evm.Call(vm.AccountRef(common.NewAddressFromData(ptr(evContract(0xee)))), common.NewAddressFromData(&c1), calldata, 200000, new(big.Int))
+	if err != nil {
+		o.Violate("c15-data-copy-fails:"+name, fmt.Sprintf("%s of %d bytes from source offset %s (source length %d): %v", name, size, off, len(source), err))
+		return
+	}
+	want := make([]byte, size)
+	if off.IsUint64() && off.Uint64() < uint64(len(source)) {
+		copy(want, source[off.Uint64():])
+		o.Count("memsrc-inside")
+	} else {
+		o.Count("memsrc-beyond")
+	}
+	if !bytes.Equal(ret, want) {
+		o.Violate("c15-data-copy-wrong-window:"+name, fmt.Sprintf("%s of %d bytes from source offset %s (source length %d) delivers %x, the zero-padded window is %x", name, size, off, len(source), ret, want))
+	}
 }
 
 // ---- (a) decoder fuzzing -------------------------------------------------------------------------------
